@@ -241,6 +241,7 @@ class Exec:
         self.checked_obligations = 0
         self.unwind_failures = []
         self.trace_calls = set()
+        self.incomplete = None
         self.time_budget = int(os.environ.get('GOSYM_TIME_BUDGET', '600'))
 
     # ---- types
@@ -419,9 +420,11 @@ class Exec:
         t_start = time.time()
         while work:
             if time.time() - t_start > self.time_budget:
-                raise Unsupported('time budget of %ds exceeded after %d finished paths (%d pending)' % (self.time_budget, len(self.results), len(work)))
+                self.incomplete = 'time budget of %ds exceeded after %d finished paths (%d pending)' % (self.time_budget, len(self.results), len(work))
+                break
             if len(self.results) + len(work) > self.max_paths:
-                raise Unsupported('path budget exceeded (%d)' % self.max_paths)
+                self.incomplete = 'path budget exceeded (%d)' % self.max_paths
+                break
             s = work.pop()
             try:
                 forks = self.step_until_fork(s)
@@ -683,7 +686,11 @@ class Exec:
         if x.num is not None or y.num is not None:
             if x.num is not None and y.num is not None:
                 return z3.And(z3.BoolVal(x.num[0] == y.num[0] and x.num[1] == y.num[1]), x.num[2] == y.num[2])
-            return z3.BoolVal(False)
+            other = y if x.num is not None else x
+            oz = z3.simplify(other.z)
+            if z3.is_string_value(oz) and go_number_like(oz.as_string()) is False:
+                return z3.BoolVal(False)       # e.g. comparison with "" or a non-numeric literal
+            raise Unsupported('comparison of a numeric string with %s' % oz)
         return x.z == y.z
 
     def op_Convert(self, st, fr, ins):
@@ -1042,6 +1049,10 @@ class Exec:
     def builtin(self, st, fr, name, args, c, ins):
         if name == 'len':
             x = args[0]
+            if isinstance(x, Str) and x.num is not None:
+                ln = z3.BitVec(self.newsym('numstrlen'), 64)      # digits of a number: at least one character
+                st.pc.append(z3.And(z3.UGE(ln, bvval(1, 64)), z3.ULE(ln, bvval(80, 64))))
+                return ln
             if isinstance(x, Str):
                 h = self.stubs.get('builtin:len:string')
                 if h:
@@ -1172,6 +1183,12 @@ class Exec:
             self.store(st, self.slice_cell_ptr(dst, i), z3.simplify(z3.If(z3.UGT(ls, bvval(i, 64)), cs[i], cd[i])))
         zld = bvval(ld, 64)
         return z3.simplify(z3.If(z3.ULT(ls, zld), ls, zld))
+
+
+def go_number_like(lit):
+    """False if the literal cannot be the text of a number"""
+    t = lit[2:] if lit[:2].lower() == '0x' else lit
+    return bool(t) and all(ch in '0123456789abcdefABCDEF' for ch in t)
 
 
 class Forks:
